@@ -6,6 +6,9 @@ from vlib import replay
 LITERAL_KINDS = {"Symbol", "NatLit", "IntLit", "RatioLit", "BoolLit", "Plus", "Minus", "Star", "Slash", "Assign", "LParen", "RParen",
                  "LSqBr", "RSqBr", "LBrace", "RBrace", "Comma", "Dot", "Colon", "DblEq", "Less", "Gre", "Pow", "Mod", "FloorDiv"}
 
+# every token kind whose content is literally its source text (all but string parts, whose content is unescaped, and layout tokens)
+NON_LITERAL_KINDS = {"StrLit", "StrInterpLeft", "StrInterpMid", "StrInterpRight", "DocComment", "Newline", "Indent", "Dedent", "EOF", "Illegal", "BOF"}
+
 TEXTS = [
     'a = "x\\ny" + b', 'print! "a\\tb", c', 'a = "\\\\" + b', 'x = "\\x41" + y', "a = '''m\nn''' + b", 'a = """m\nn""" + b',
     'a = 1 #[ c ]# + b', 'f "\\{x}" , y', 'a = "é\\n" + b', '"', '"\\', '"\\x', '"\\x4', '"""a\\', "'''\\", '"a\\{b}c\\', '"\\{', 'a = "s" + b',
@@ -33,7 +36,7 @@ def check_one(src, out):
         last = kind
         indents += kind == 'Indent'
         dedents += kind == 'Dedent'
-        if status == 'OK' and kind in LITERAL_KINDS and ln >= 1:
+        if status == 'OK' and kind not in NON_LITERAL_KINDS and ln >= 1:
             if ln > len(lines) or lines[ln - 1][col:col + len(content)] != content:
                 where = lines[ln - 1][col:col + len(content)] if ln <= len(lines) else '<no such line>'
                 return "token %s %r is reported at line %d column %d, where the source has %r" % (kind, content, ln, col, where)
@@ -54,3 +57,69 @@ def find(run, failure=None, texts=None):
                     "input": {"source": src}, "real_result": out[:600], "oracle": "literal tokens are found in the source at the position they report; no crash",
                     "verdict": bad, "replay_cmd": "echo %s | %s" % (src.encode().hex(), binary)}
     return {"found": False, "note": "no crash or misplaced token on %d probe texts" % len(texts)}
+
+
+# ---------------------------------------------------------------------------------------------------------------------------
+# thorough tier: randomised replay of the REAL lexer end to end (constructors, normalize_newline and the parts the Verus unit stubs:
+# keyword table, indent fold, is_definable_operator) with the same oracle. Not counted as proved; seeded by VERIF_SEED.
+import random
+
+IDENTS = ['a', 'b1', 'foo', 'x_y', 'f!', 'and', 'or', 'in', 'notin', 'True', 'None', '_', 'é', '変数']
+NUMS = ['0', '1', '42', '1_000', '0b101', '0o17', '0xFf', '1.5', '.5', '3.', '1e+3', '2.5e-3', '1.5e3', '7.e']
+OPS = ['+', '-', '*', '/', '//', '**', '%', '==', '!=', '<', '>', '<=', '>=', '<..', '..<', '..', '<..<', '...', '->', '=>', '=', ':=', ':', '::', ',', '.', '|>', '||', '&&', '^^', '~', '!', '?', '@', '<-', '<:', ':>', '<<', '>>', '|', '&', '^', ';']
+STRS = ['"s"', '"a\\nb"', '"\\t"', '"q\\"q"', '"é"', '"\\{x}"', '"a\\{1 + 2}b\\{y}c"', '"""m"""', '"""l1\nl2"""', "\'raw id\'", '"', '"\\', '"""x', '`+`', '`_+_`', '`a', '``']
+COMMENTS = ['# c', '#[ c ]#', '#[ a\n b ]#', '#[ #[ n ]# ]#', '#[ open']
+BRACKETS = ['(', ')', '[', ']', '{', '}']
+MISC = ['\\\n', '\t', '$', '\u200F', '\\x']
+
+
+def random_text(rnd):
+    n_lines = rnd.randint(1, 7)
+    depth = 0
+    lines = []
+    for _ in range(n_lines):
+        r = rnd.random()
+        if r < 0.25:
+            depth += 1
+        elif r < 0.45 and depth > 0:
+            depth -= rnd.randint(1, depth)
+        elif r < 0.5:
+            depth = rnd.randint(0, 3)
+        indent = ' ' * (4 * depth if rnd.random() < 0.9 else rnd.randint(0, 9))
+        toks = []
+        for _ in range(rnd.randint(0, 7)):
+            k = rnd.random()
+            pool = IDENTS if k < 0.3 else NUMS if k < 0.45 else OPS if k < 0.7 else STRS if k < 0.82 else COMMENTS if k < 0.88 else BRACKETS if k < 0.97 else MISC
+            toks.append(rnd.choice(pool))
+        sep = ' ' if rnd.random() < 0.8 else ''
+        lines.append(indent + sep.join(toks) + (' ' * rnd.randint(0, 2) if rnd.random() < 0.1 else ''))
+    return '\n'.join(lines) + ('\n' if rnd.random() < 0.7 else '')
+
+
+def explore_random(run):
+    binary = replay.build(run, 'c08', deps=('erg_common', 'erg_parser'))
+    rnd = random.Random(1000003 * run.seed + 17)
+    n = 4000
+    texts = [random_text(rnd) for _ in range(n)]
+    checked = 0
+    CH = 250
+    for k in range(0, n, CH):
+        chunk = texts[k:k + CH]
+        outs = replay.run_lines(binary, [t.encode().hex() for t in chunk], timeout=300)
+        if len(outs) != len(chunk):
+            # the process died on one of them: find it
+            for t in chunk:
+                o = replay.run_lines(binary, [t.encode().hex()], timeout=60)
+                if not o:
+                    return {"found": True, "how": "random texts lexed by the real lexer", "input": {"source": t}, "real_result": "process died (abort / stack overflow)",
+                            "oracle": "no input may crash the lexer", "verdict": "the lexer crashes", "replay_cmd": "echo %s | %s" % (t.encode().hex(), binary)}
+            continue
+        for (t, o) in zip(chunk, outs):
+            checked += 1
+            bad = check_one(t, o)
+            if bad:
+                return {"found": True, "how": "random texts (identifiers, numbers, operators, strings with escapes and interpolation, comments, brackets, indentation changes, line continuations) lexed by the real lexer; seed %d" % run.seed,
+                        "input": {"source": t}, "real_result": o[:600], "oracle": "literal tokens are found in the source at the position they report; an accepted text ends with EOF and balances Indent/Dedent; no crash",
+                        "verdict": bad, "replay_cmd": "echo %s | %s" % (t.encode().hex(), binary)}
+    run.extra["random_replay_texts"] = checked
+    return {"found": False, "note": "no crash or misplaced token on %d random texts (seed %d)" % (checked, run.seed)}
